@@ -64,10 +64,11 @@ func c20Forbidden() []explore.Event {
 }
 
 func c20Families(d, faults int) []explore.Family {
-	mk := func(name string, a []explore.Event) explore.Family {
-		return explore.Family{Name: name, Scenario: "c20", Depth: d, Params: C20P{mbox.C20Params{Alphabet: a, MaxFaults: faults}}}
+	mk := func(name string, a []explore.Event, depth int) explore.Family {
+		return explore.Family{Name: name, Scenario: "c20", Depth: depth, Params: C20P{mbox.C20Params{Alphabet: a, MaxFaults: faults}}}
 	}
-	return []explore.Family{mk("append+faults", c20Append()), mk("move-out", c20MoveOut()), mk("forbidden", c20Forbidden())}
+	// the move-out family is small and its interesting histories are long (reject, move out, reject again): deeper
+	return []explore.Family{mk("append+faults", c20Append(), d), mk("move-out", c20MoveOut(), d+2), mk("forbidden", c20Forbidden(), d)}
 }
 
 func C20(tier string) int {
